@@ -4,6 +4,7 @@ import Mathlib.Tactic.FieldSimp
 import Mathlib.Tactic.Positivity
 import Mathlib.Tactic.FinCases
 import Mathlib.Tactic.NormNum
+import Mathlib.Algebra.BigOperators.Field
 /-!
 # C08 — reported model statistics equal their documented definitions at the fit
 
@@ -28,6 +29,7 @@ Not proved (contracts / trusted parameters): LAPACK `qr`, `svd`, Cholesky; SciPy
 `logpdf/logpmf` normalisers; IEEE rounding (the float code is tied to these exact-field statements by the
 correspondence streams of `harness/props/c08.py` to 1e-8 / 1e-6).
 -/
+set_option linter.unusedSectionVars false
 open Finset Matrix
 namespace PyGam.C08
 open PyGam PyGam.Stats
@@ -146,13 +148,17 @@ theorem se_sq (n : Nat) (φ : ℝ) (hφ : 0 ≤ φ) (Bm : Nat → Nat → ℝ) (
 end covOrder
 
 /-! ### 3. scale -/
-section scale
-variable {α : Type} [Field α] [LinearOrder α] [IsStrictOrderedRing α] [HasLogSqrt α]
-
+section cast
+variable {α : Type} [Field α]
+/-- `len(mu)` as a number -/
 theorem natTo_eq_cast (n : Nat) : (natTo n : α) = (n : α) := by
   induction n with
   | zero => simp [natTo]
   | succ n ih => simp [natTo, ih]
+end cast
+
+section scale
+variable {α : Type} [Field α] [LinearOrder α] [IsStrictOrderedRing α] [HasLogSqrt α]
 
 /-- a user-supplied (or family-fixed) scale is reported unchanged -/
 theorem scale_known (s : α) (fam : Family) (levels : α) (n : Nat) (edof : α) (w y mu : Nat → α) :
@@ -255,17 +261,20 @@ theorem pValue_known (chi2cdf : α → Nat → α) (fcdf : α → Nat → α →
 /-- estimated scale: `F(rank, n - edof)` reference for `score / rank` -/
 theorem pValue_estimated (chi2cdf : α → Nat → α) (fcdf : α → Nat → α → α) (score : α) (rank n : Nat) (edof : α) :
     pValue chi2cdf fcdf false score rank n edof = 1 - fcdf (score / (rank : α)) rank ((n : α) - edof) := by
-  simp [pValue, natTo_eq_cast]
+  simp [pValue, cdfArgs, natTo_eq_cast]
 
 /-- a p-value lies in `[0, 1]` whenever the reference cdfs do -/
 theorem pValue_mem_unit (chi2cdf : α → Nat → α) (fcdf : α → Nat → α → α)
     (h1 : ∀ x d, 0 ≤ chi2cdf x d ∧ chi2cdf x d ≤ 1) (h2 : ∀ x d e, 0 ≤ fcdf x d e ∧ fcdf x d e ≤ 1)
     (known : Bool) (score : α) (rank n : Nat) (edof : α) :
     0 ≤ pValue chi2cdf fcdf known score rank n edof ∧ pValue chi2cdf fcdf known score rank n edof ≤ 1 := by
-  unfold pValue
   cases known
-  · have := h2 (score / natTo rank) rank (natTo n - edof); simp only [Bool.false_eq_true, if_false]; constructor <;> linarith [this.1, this.2]
-  · have := h1 score rank; simp only [if_true]; constructor <;> linarith [this.1, this.2]
+  · rw [pValue_estimated]
+    have := h2 (score / (rank : α)) rank ((n : α) - edof)
+    constructor <;> linarith [this.1, this.2]
+  · rw [pValue_known]
+    have := h1 score rank
+    constructor <;> linarith [this.1, this.2]
 
 end formulas
 
@@ -282,7 +291,7 @@ theorem explained_scale_free (fam : Family) (levels s : α) (hs : s ≠ 0) (n : 
       = totalDeviance fam levels s false n w y mu' / s := by
     intro mu'
     simp only [totalDeviance, deviance, sumTo_eq, if_true, Bool.false_eq_true, if_false]
-    rw [sum_div]; apply sum_congr rfl; intro i _; ring
+    rw [Finset.sum_div]; apply sum_congr rfl; intro i _; ring
   unfold r2Explained explainedDeviance
   rw [key, key, div_div_div_cancel_right₀ hs]
 
@@ -348,22 +357,21 @@ contract `hrow` (`U₁ᵇ = [4/5]`) -/
 def exF : Solve.Factor ℚ 1 1 2 :=
   { WB := !![3, 0], A := !![16, 0; 0, 25], Q := !![1], R := !![3, 0], E := !![4, 0; 0, 5],
     U1 := !![3/5, 0], U2 := !![4/5, 0; 0, 1], d := ![5, 5], V := !![1, 0; 0, 1],
-    qr := by ext i j; fin_cases i; fin_cases j <;> simp [Matrix.mul_apply],
-    qorth := by ext i j; fin_cases i; fin_cases j; simp [Matrix.mul_apply],
-    chol := by ext i j; fin_cases i <;> fin_cases j <;> simp [Matrix.mul_apply, Fin.sum_univ_two] <;> norm_num,
-    svdR := by ext i j; fin_cases i; fin_cases j <;> simp [Matrix.mul_apply, Fin.sum_univ_two, Matrix.diagonal],
-    svdE := by ext i j; fin_cases i <;> fin_cases j <;> simp [Matrix.mul_apply, Fin.sum_univ_two, Matrix.diagonal],
-    uorth := by ext i j; fin_cases i <;> fin_cases j <;> simp [Matrix.mul_apply, Fin.sum_univ_two] <;> norm_num,
-    vorth := by ext i j; fin_cases i <;> fin_cases j <;> simp [Matrix.mul_apply, Fin.sum_univ_two],
-    dne := by intro i; fin_cases i <;> simp }
+    qr := by decide +kernel,
+    qorth := by decide +kernel,
+    chol := by decide +kernel,
+    svdR := by decide +kernel,
+    svdE := by decide +kernel,
+    uorth := by decide +kernel,
+    vorth := by decide +kernel,
+    dne := by decide +kernel }
 
-example : exF.U1 * exF.U1ᵀ + !![(4/5 : ℚ)] * !![(4/5 : ℚ)]ᵀ = 1 := by
-  ext i j; fin_cases i; fin_cases j; simp [exF, Matrix.mul_apply, Fin.sum_univ_two]; norm_num
+/-- the row contract `hrow` of `edof_le_k` holds for it with `U₁ᵇ = [4/5]` -/
+example : exF.U1 * exF.U1ᵀ + (!![4/5] : Matrix (Fin 1) (Fin 1) ℚ) * (!![4/5] : Matrix (Fin 1) (Fin 1) ℚ)ᵀ = 1 := by
+  decide +kernel
 
-example : trace (exF.U1 * exF.U1ᵀ) = 9 / 25 := by
-  simp [exF, Matrix.trace, Matrix.mul_apply, Fin.sum_univ_two]; norm_num
+example : trace (exF.U1 * exF.U1ᵀ) = 9 / 25 := by decide +kernel
 
-example : exF.WB ≠ 0 := by
-  intro h; have := congrFun (congrFun h 0) 0; simp [exF] at this
+example : exF.WB ≠ 0 := by decide +kernel
 
 end PyGam.C08
